@@ -2,39 +2,43 @@
    Only statements here; the model is Model/Exposure.v, the proofs are in Proofs/Exposure.v.
    Gen_C02 (src_guards: the guard lists of Readout.__init__, the two Readout setters and
    ReadoutProperties.__init__;  src_empty: the table of Detector.empty(reset)) is regenerated from the
-   source on every run, and the theorems below are re-checked against it.
+   source on every run, and the theorems below are re-checked against it; so is src_set_readout (does
+   Detector.set_readout always install a NEW ReadoutProperties built from the readout it is given?).
 
    Reading guide.  [scenario A zero G E form times start nd ops prog d0] = construct a Readout, apply the
    caller's operations [ops] (setters / replace), call run_pipeline on a detector whose buckets hold [d0],
    with the models of each step being the arbitrary state transformer [prog].  It returns [Rejected stage]
    (an exception before any model executed) or [Ran trace], one observation per executed step: the clock
    the models see, the buckets at the start and at the end of the step.
-   [valid_scenario] = every schedule the caller installs on the way is valid (strictly increasing times,
-   first time non-zero and later than the start time) and is given in list form. *)
+   [valid_scenario] = every schedule the caller installs on the way (the constructor's, then the one in place
+   after each setter / replace operation) is valid: strictly increasing times, first time non-zero and later
+   than the start time.  The constructor's `times` may come in any form [f]: list / tuple / scalar /
+   expression / file (FList) or a numpy array (FNdarray); replace() hands the constructor a numpy array. *)
 From Coq Require Import QArith ZArith List Bool Lia.
-From PyxelV Require Import Model.Exposure Proofs.Exposure Proofs.ExposureSpec.
+From PyxelV Require Import Model.Exposure Model.ExposureF Proofs.Exposure Proofs.ExposureSpec Proofs.ExposureSession
+  Proofs.ExposureF.
 From PyxelGen Require Import Gen_C02.
 Import ListNotations.
 Open Scope Q_scope.
 
 (* the pipeline runs once per readout time, in order *)
 Theorem C02_once_per_time_in_order :
-  forall (A : Type) (zero : A) r s nd ops (prog : program A) d0, valid_scenario r s nd ops ->
+  forall (A : Type) (zero : A) f r s nd ops (prog : program A) d0, valid_scenario r s nd ops ->
   exists qs trace,
     r_times (final r s nd ops) = R1 (map TQ qs)
-    /\ scenario A zero src_guards src_empty FList r s nd ops prog d0 = Ran trace
+    /\ scenario A zero src_guards src_empty f r s nd ops prog d0 = Ran trace
     /\ map (fun o => c_time (o_clock o)) trace = map TQ qs
     /\ length trace = length qs.
-Proof. intros A zero. exact (st_once_in_order A zero src_guards src_empty). Qed.
+Proof. intros A zero. apply (st_once_in_order A zero src_guards src_empty); vm_compute; reflexivity. Qed.
 Print Assumptions C02_once_per_time_in_order.
 
 (* during step i the models see time t_i, step t_i - t_(i-1) with t_(-1) = start, absolute time
    start + t_i, counter i, first <-> i = 0, last <-> i = n - 1 *)
 Theorem C02_clock :
-  forall (A : Type) (zero : A) r s nd ops (prog : program A) d0, valid_scenario r s nd ops ->
+  forall (A : Type) (zero : A) f r s nd ops (prog : program A) d0, valid_scenario r s nd ops ->
   exists qs st trace,
     r_times (final r s nd ops) = R1 (map TQ qs) /\ r_start (final r s nd ops) = TQ st
-    /\ scenario A zero src_guards src_empty FList r s nd ops prog d0 = Ran trace
+    /\ scenario A zero src_guards src_empty f r s nd ops prog d0 = Ran trace
     /\ forall i o, nth_error trace i = Some o ->
          c_time (o_clock o) = TQ (nth i qs 0)
          /\ c_step (o_clock o) = TQ (nth i qs 0 - nth i (st :: qs) 0)
@@ -42,7 +46,7 @@ Theorem C02_clock :
          /\ c_count (o_clock o) = Z.of_nat i
          /\ c_first (o_clock o) = Nat.eqb i 0
          /\ c_last (o_clock o) = Nat.eqb (S i) (length qs).
-Proof. intros A zero. exact (st_clock A zero src_guards src_empty). Qed.
+Proof. intros A zero. apply (st_clock A zero src_guards src_empty); vm_compute; reflexivity. Qed.
 Print Assumptions C02_clock.
 
 (* telescoping: the time steps of any schedule add up to end time - start time (reused by C17) *)
@@ -53,13 +57,13 @@ Print Assumptions C02_sum_of_steps.
 
 (* ... and these are the steps the models of a run actually see *)
 Theorem C02_clock_steps_telescope :
-  forall (A : Type) (zero : A) r s nd ops (prog : program A) d0, valid_scenario r s nd ops ->
+  forall (A : Type) (zero : A) f r s nd ops (prog : program A) d0, valid_scenario r s nd ops ->
   exists qs st trace,
     r_times (final r s nd ops) = R1 (map TQ qs) /\ r_start (final r s nd ops) = TQ st
-    /\ scenario A zero src_guards src_empty FList r s nd ops prog d0 = Ran trace
+    /\ scenario A zero src_guards src_empty f r s nd ops prog d0 = Ran trace
     /\ map (fun o => c_step (o_clock o)) trace = map TQ (steps_q st qs)
     /\ qsum (steps_q st qs) == last qs st - st.
-Proof. intros A zero. exact (st_steps_sum A zero src_guards src_empty). Qed.
+Proof. intros A zero. apply (st_steps_sum A zero src_guards src_empty); vm_compute; reflexivity. Qed.
 Print Assumptions C02_clock_steps_telescope.
 
 (* at the beginning of every step scene / photon / charge / signal / image are empty; pixel is zero in
@@ -67,9 +71,9 @@ Print Assumptions C02_clock_steps_telescope.
    for every program of per-step writers and every prior content d0 of the detector.
    Re-proved against the regenerated table of Detector.empty. *)
 Theorem C02_step_start_buckets :
-  forall (A : Type) (zero : A) r s nd ops (prog : program A) d0, valid_scenario r s nd ops ->
+  forall (A : Type) (zero : A) f r s nd ops (prog : program A) d0, valid_scenario r s nd ops ->
   exists trace,
-    scenario A zero src_guards src_empty FList r s nd ops prog d0 = Ran trace
+    scenario A zero src_guards src_empty f r s nd ops prog d0 = Ran trace
     /\ forall i o, nth_error trace i = Some o ->
          scene (o_begin o) = None /\ photon (o_begin o) = None /\ charge (o_begin o) = None
          /\ signal (o_begin o) = None /\ image (o_begin o) = None
@@ -80,7 +84,7 @@ Theorem C02_step_start_buckets :
                      then match nth_error trace j with Some p => pixel (o_end p) | None => Some zero end
                      else Some zero
             end.
-Proof. intros A zero. apply (st_step_start A zero src_guards src_empty). vm_compute. reflexivity. Qed.
+Proof. intros A zero. apply (st_step_start A zero src_guards src_empty); vm_compute; reflexivity. Qed.
 Print Assumptions C02_step_start_buckets.
 
 (* nothing left in the detector by an earlier run leaks into this one: the whole outcome (every clock,
@@ -93,66 +97,219 @@ Proof. intros A zero. apply (scenario_no_leak A zero src_guards src_empty). vm_c
 Print Assumptions C02_no_leak.
 
 (* ------------------------------------------------------------------------------------------------ *)
+(* binary64: readout times whose differences are not exactly representable (0.1, 0.2, 0.3, ...)       *)
+
+(* numpy computes the steps and the absolute time in binary64; each is the exact rational value (what the
+   model above computes over Q) rounded to nearest-even ([rnd64] = Flocq's binary_normalize, on Z).  The
+   clock the models see at step i of a valid run is then: time t_i, step fl(t_i - t_(i-1)), absolute time
+   fl(start + t_i), counter i, first / last — for every schedule, not only the exactly representable ones *)
+Theorem C02_float_clock :
+  forall (A : Type) (zero : A) f r s nd ops (prog : program A) d0, valid_scenario r s nd ops ->
+  exists qs st trace,
+    r_times (final r s nd ops) = R1 (map TQ qs) /\ r_start (final r s nd ops) = TQ st
+    /\ round_outcome (scenario A zero src_guards src_empty f r s nd ops prog d0) = Ran trace
+    /\ length trace = length qs
+    /\ forall i o, nth_error trace i = Some o ->
+         c_time (o_clock o) = TQ (nth i qs 0)
+         /\ c_step (o_clock o) = rnd64 (TQ (nth i qs 0 - nth i (st :: qs) 0))
+         /\ c_abs (o_clock o) = rnd64 (TQ (st + nth i qs 0))
+         /\ c_count (o_clock o) = Z.of_nat i
+         /\ c_first (o_clock o) = Nat.eqb i 0
+         /\ c_last (o_clock o) = Nat.eqb (S i) (length qs).
+Proof. intros A zero. apply (st_clock_f A zero src_guards src_empty); vm_compute; reflexivity. Qed.
+Print Assumptions C02_float_clock.
+
+(* the binary64 oracle of the correspondence leg ([case_violates_f]) never flags the rounded image of the
+   model's own trace *)
+Theorem C02_float_oracle_accepts_model :
+  forall f r s nd ops plan d0 rp0 os aft,
+  valid_scenario r s nd ops ->
+  scenario Z 0%Z src_guards src_empty f r s nd ops (prog_of plan) d0 = Ran os ->
+  case_violates_f {| k_form := f; k_raw := r; k_start := s; k_nd := nd; k_ops := ops; k_d0 := d0;
+                     k_rp0 := rp0; k_plan := plan; k_obs := IRan (map round_obs os); k_after := aft |} = false.
+Proof. apply (oracle_f_accepts_model src_guards src_empty); vm_compute; reflexivity. Qed.
+Print Assumptions C02_float_oracle_accepts_model.
+
+(* times 0.1, 0.2, 0.3 (the doubles) from start 0: the steps are 0.1, 0.1, 0.09999999999999998 and not three
+   times the same number; rounding is the identity on exactly representable values *)
+Example C02_ex_float_steps :
+  let d01 := TQ (3602879701896397 # 36028797018963968) in
+  let d02 := TQ (3602879701896397 # 18014398509481984) in
+  let d03 := TQ (5404319552844595 # 18014398509481984) in
+  forallb (fun p => tv_eqb (fst p) (snd p))
+          (combine (steps_f (TQ 0) [d01; d02; d03]) [d01; d01; TQ (900719925474099 # 9007199254740992)])
+  = true
+  /\ tv_eqb (rnd64 (tadd d01 d02)) (TQ (5404319552844596 # 18014398509481984)) = true
+  /\ tv_eqb (rnd64 (TQ (3 # 2))) (TQ (3 # 2)) = true /\ tv_eqb (rnd64 (TQ (-7 # 1))) (TQ (-7 # 1)) = true
+  /\ rnd64 TNaN = TNaN.
+Proof. vm_compute. repeat split. Qed.
+
+(* ------------------------------------------------------------------------------------------------ *)
+(* several runs on ONE detector object                                                                *)
+
+(* [scenario_st ... st] is the same run on the detector as an object in state [st] = its buckets AND the
+   ReadoutProperties object it carries from an earlier run (sampling arrays, start time, mode, running
+   clock — whatever an earlier run or the caller's assignments through public setters left there).  The
+   object-level run stores time / time_step / pipeline_count INTO that object and the models read the clock
+   FROM it.  Its outcome is the functional run above on the detector's buckets: nothing of the object the
+   detector carried is read.  Re-proved against the regenerated policy of Detector.set_readout. *)
+Theorem C02_run_on_object_refines :
+  forall (A : Type) (zero : A) f r s nd ops (prog : program A) (st : dstate A),
+  fst (scenario_st A zero src_guards src_empty src_set_readout f r s nd ops prog st)
+  = scenario A zero src_guards src_empty f r s nd ops prog (ds_det st).
+Proof. intros A zero. exact (scenario_st_new A zero src_guards src_empty). Qed.
+Print Assumptions C02_run_on_object_refines.
+
+(* no leak, object level: the outcome is independent of the WHOLE prior state of the detector — buckets and
+   ReadoutProperties object (times, steps, num_steps, start, mode, time, time_step, pipeline_count) *)
+Theorem C02_no_leak_object :
+  forall (A : Type) (zero : A) f r s nd ops (prog : program A) (st st' : dstate A),
+  fst (scenario_st A zero src_guards src_empty src_set_readout f r s nd ops prog st)
+  = fst (scenario_st A zero src_guards src_empty src_set_readout f r s nd ops prog st').
+Proof. intros A zero. apply (scenario_st_no_leak A zero src_guards src_empty). vm_compute. reflexivity. Qed.
+Print Assumptions C02_no_leak_object.
+
+(* sessions: any number of runs on one detector, each with its own readout (any construction history — the
+   same schedule again, only the start changed, only the mode changed, ...) and its own models, with
+   ARBITRARY changes of the detector state by the caller between the runs: run k has exactly the outcome of
+   the same scenario made alone on a blank detector *)
+Theorem C02_session_no_leak :
+  forall (A : Type) (zero : A) (runs : list (run_spec A)) (st : dstate A),
+  session A zero src_guards src_empty src_set_readout runs st
+  = map (run_alone A zero src_guards src_empty) runs.
+Proof. intros A zero. apply (session_no_leak A zero src_guards src_empty). vm_compute. reflexivity. Qed.
+Print Assumptions C02_session_no_leak.
+
+(* ... hence every clock field of every step of every valid run of every session is the closed form *)
+Theorem C02_session_clock :
+  forall (A : Type) (zero : A) (runs : list (run_spec A)) (st : dstate A) k r,
+  nth_error runs k = Some r ->
+  valid_scenario (rs_raw r) (rs_start r) (rs_nd r) (rs_ops r) ->
+  exists qs s0 trace,
+    r_times (final (rs_raw r) (rs_start r) (rs_nd r) (rs_ops r)) = R1 (map TQ qs)
+    /\ r_start (final (rs_raw r) (rs_start r) (rs_nd r) (rs_ops r)) = TQ s0
+    /\ nth_error (session A zero src_guards src_empty src_set_readout runs st) k = Some (Ran trace)
+    /\ length trace = length qs
+    /\ forall i o, nth_error trace i = Some o ->
+         c_time (o_clock o) = TQ (nth i qs 0)
+         /\ c_step (o_clock o) = TQ (nth i qs 0 - nth i (s0 :: qs) 0)
+         /\ c_abs (o_clock o) = TQ (s0 + nth i qs 0)
+         /\ c_count (o_clock o) = Z.of_nat i
+         /\ c_first (o_clock o) = Nat.eqb i 0
+         /\ c_last (o_clock o) = Nat.eqb (S i) (length qs).
+Proof. intros A zero. apply (session_clock A zero src_guards src_empty); vm_compute; reflexivity. Qed.
+Print Assumptions C02_session_clock.
+
+(* ... and so is the bucket state at the start of every step of every valid run of every session *)
+Theorem C02_session_step_start_buckets :
+  forall (A : Type) (zero : A) (runs : list (run_spec A)) (st : dstate A) k r,
+  nth_error runs k = Some r ->
+  valid_scenario (rs_raw r) (rs_start r) (rs_nd r) (rs_ops r) ->
+  exists trace,
+    nth_error (session A zero src_guards src_empty src_set_readout runs st) k = Some (Ran trace)
+    /\ forall i o, nth_error trace i = Some o ->
+         scene (o_begin o) = None /\ photon (o_begin o) = None /\ charge (o_begin o) = None
+         /\ signal (o_begin o) = None /\ image (o_begin o) = None
+         /\ pixel (o_begin o) =
+            match i with
+            | O => Some zero
+            | S j => if r_nd (final (rs_raw r) (rs_start r) (rs_nd r) (rs_ops r))
+                     then match nth_error trace j with Some p => pixel (o_end p) | None => Some zero end
+                     else Some zero
+            end.
+Proof. intros A zero. apply (session_step_start A zero src_guards src_empty); vm_compute; reflexivity. Qed.
+Print Assumptions C02_session_step_start_buckets.
+
+(* the hypothesis on Detector.set_readout is needed: a set_readout that keeps an object it already has lets
+   the previous run's sampling through (same readout, two prior states, different clocks) *)
+Example C02_ex_kept_object_leaks :
+  let ro_prev := {| r_times := R1 [TQ 1; TQ 2]; r_start := TQ 0; r_nd := false |} in
+  let st0 := {| ds_det := blank unit; ds_rp := None |} in
+  let st1 := {| ds_det := blank unit; ds_rp := rp_init src_guards ro_prev |} in
+  fst (scenario_st unit tt src_guards src_empty SRKeepExisting FList (R1 [TQ 1; TQ 2]) (TQ (1#2)) false []
+                   (fun _ d => d) st0)
+  <> fst (scenario_st unit tt src_guards src_empty SRKeepExisting FList (R1 [TQ 1; TQ 2]) (TQ (1#2)) false []
+                      (fun _ d => d) st1).
+Proof. vm_compute. intros H. discriminate H. Qed.
+
+(* non-vacuity of the session theorems: three runs on one detector — the same schedule twice with only the
+   start changed, then the other mode — with the caller overwriting the object's start time and clock in
+   between; the first-step time steps are 1 - 0, 1 - 1/2, 1 - 1/2 *)
+Example C02_ex_session :
+  let rs (s : Q) (nd : bool) : run_spec Z :=
+    {| rs_tamper := fun st => {| ds_det := ds_det st;
+                                 ds_rp := option_map (fun p => mkrp (rp_times p) (rp_steps p) (rp_num p) (TQ 7)
+                                                                    (rp_nd p) (TQ 5) (TQ 3) 9%Z) (ds_rp st) |};
+       rs_form := FList; rs_raw := R1 [TQ 1; TQ 3]; rs_start := TQ s; rs_nd := nd; rs_ops := [];
+       rs_prog := prog_of [[WAdd Pixel 2]; [WAdd Pixel 2]]%Z |} in
+  map (fun o => match o with
+                | Ran os => map (fun ob => (c_step (o_clock ob), c_abs (o_clock ob), pixel (o_begin ob))) os
+                | Rejected _ => []
+                end)
+      (session Z 0%Z src_guards src_empty src_set_readout [rs 0 false; rs (1#2) false; rs (1#2) true]
+               {| ds_det := blank Z; ds_rp := None |})
+  = [[(TQ 1, TQ 1, Some 0%Z); (TQ 2, TQ 3, Some 0%Z)];
+     [(TQ (1#2), TQ (3#2), Some 0%Z); (TQ 2, TQ (7#2), Some 0%Z)];
+     [(TQ (1#2), TQ (3#2), Some 0%Z); (TQ 2, TQ (7#2), Some 2%Z)]].
+Proof. vm_compute. reflexivity. Qed.
+
+(* ------------------------------------------------------------------------------------------------ *)
 (* invalid schedules                                                                                  *)
 
-(* full statement: whatever the caller does (constructor, then any setters / replace), if the schedule
-   that would be run is not valid, an exception is raised before any model executes *)
-Definition C02_invalid_rejected_full : Prop :=
+(* whatever the caller does (constructor in any form, then any setters / replace), if the schedule that
+   would be run is not valid — NaN times and a NaN start time included — an exception is raised before any
+   model executes.  Re-proved against the regenerated guard list of ReadoutProperties.__init__ (the
+   validation every path goes through before the first model): it must contain the first-time-non-zero test,
+   the strictly-increasing test and the start test in its POSITIVE form `not start < times[0]`, which a NaN
+   on either side fails (the negative form `start >= times[0]` lets every NaN through). *)
+Theorem C02_invalid_rejected :
   forall (A : Type) (zero : A) f r s nd ops (prog : program A) d0,
-  ~ ro_valid (final r s nd ops) ->
-  exists stage, scenario A zero src_guards src_empty f r s nd ops prog d0 = Rejected stage.
-
-(* refuted by the faithful model: every guard is written as `if <bad>: raise`, and every comparison with
-   NaN is false, so a single NaN time (or a NaN start time) passes all of them *)
-Theorem C02_invalid_rejected_refuted : ~ C02_invalid_rejected_full.
-Proof.
-  intros H.
-  destruct (H unit tt FList (R1 [TNaN]) (TQ 0) false [] (fun _ d => d)
-              {| scene := None; photon := None; charge := None; pixel := None; signal := None; image := None |})
-    as [stage Hs].
-  - intros [qs [st [Hq _]]]. simpl in Hq. destruct qs as [|q [|q' qs]]; discriminate.
-  - vm_compute in Hs. discriminate.
-Qed.
-Print Assumptions C02_invalid_rejected_refuted.
-
-(* strongest true restriction: NaN-free input.  Re-proved against the regenerated guard list of
-   ReadoutProperties.__init__ (the validation every path goes through before the first model). *)
-Theorem C02_invalid_rejected_partial :
-  forall (A : Type) (zero : A) f r s nd ops (prog : program A) d0,
-  nan_free (r_times (final r s nd ops)) (r_start (final r s nd ops)) ->
   ~ ro_valid (final r s nd ops) ->
   exists stage, scenario A zero src_guards src_empty f r s nd ops prog d0 = Rejected stage.
 Proof. intros A zero. apply (scenario_invalid A zero src_guards src_empty). vm_compute. reflexivity. Qed.
-Print Assumptions C02_invalid_rejected_partial.
+Print Assumptions C02_invalid_rejected.
 
 (* the same for ANY state a Readout object can be in when run_pipeline receives it (so: through every
    sequence of setter calls, including the `times` setter, which has no monotonicity guard) *)
 Theorem C02_invalid_rejected_any_readout_state :
   forall (A : Type) (zero : A) ro (prog : program A) d0,
-  nan_free (r_times ro) (r_start ro) -> ~ ro_valid ro ->
+  ~ ro_valid ro ->
   run_readout A zero src_guards src_empty ro prog d0 = Rejected 2.
 Proof. intros A zero. apply (run_invalid A zero src_guards src_empty). vm_compute. reflexivity. Qed.
 Print Assumptions C02_invalid_rejected_any_readout_state.
 
-(* a valid schedule is never refused ... *)
-Definition C02_valid_runs_full : Prop :=
+(* ... and on the detector as an object, in a session: an invalid run is refused whatever the detector
+   carries, and it leaves the detector exactly as it found it (buckets and ReadoutProperties object) *)
+Theorem C02_invalid_rejected_object_untouched :
+  forall (A : Type) (zero : A) f r s nd ops (prog : program A) (st : dstate A),
+  ~ ro_valid (final r s nd ops) ->
+  exists stage,
+    scenario_st A zero src_guards src_empty src_set_readout f r s nd ops prog st = (Rejected stage, st).
+Proof. intros A zero. apply (scenario_st_invalid A zero src_guards src_empty). vm_compute. reflexivity. Qed.
+Print Assumptions C02_invalid_rejected_object_untouched.
+
+(* a caller who only ever installs valid schedules is never refused: every form of `times`, every setter,
+   every replace().  Re-proved against the regenerated shape of Readout.__init__ (a numpy array given as
+   `times` — what replace() passes — is converted to a list before the checks). *)
+Theorem C02_valid_runs :
   forall (A : Type) (zero : A) f r s nd ops (prog : program A) d0,
   Forall ro_valid (intended_all {| r_times := r; r_start := s; r_nd := nd |} ops) ->
   exists trace, scenario A zero src_guards src_empty f r s nd ops prog d0 = Ran trace.
-
-(* ... refuted: Readout(times=<numpy array>) raises, hence Readout.replace(...) without `times` raises for
-   every schedule.  The restriction that holds (list form, no such replace) is part of the theorems above. *)
-Theorem C02_valid_runs_refuted : ~ C02_valid_runs_full.
 Proof.
-  intros H.
-  destruct (H unit tt FList (R1 [TQ 1; TQ 2]) (TQ 0) false [OReplaceND true] (fun _ d => d)
-              {| scene := None; photon := None; charge := None; pixel := None; signal := None; image := None |})
-    as [trace Ht].
-  - repeat constructor; exists [1; 2], 0; (split; [reflexivity|split; [reflexivity|]]);
-      repeat split; try reflexivity; intros Hc; discriminate Hc.
-  - vm_compute in Ht. discriminate.
+  intros A zero f r s nd ops prog d0 Hv.
+  destruct (st_runs A zero src_guards src_empty (eq_refl : g_ndarray src_guards = true) f r s nd ops prog d0 Hv)
+    as [qs [st [_ [_ [_ H]]]]].
+  eexists. exact H.
 Qed.
-Print Assumptions C02_valid_runs_refuted.
+Print Assumptions C02_valid_runs.
+
+(* dichotomy: every scenario either raises before any model executes or runs the final schedule, which is
+   then valid — there is no third outcome (no run on an invalid schedule) *)
+Theorem C02_ran_only_if_valid :
+  forall (A : Type) (zero : A) f r s nd ops (prog : program A) d0 trace,
+  scenario A zero src_guards src_empty f r s nd ops prog d0 = Ran trace -> ro_valid (final r s nd ops).
+Proof. intros A zero. apply (scenario_ran_valid A zero src_guards src_empty). vm_compute. reflexivity. Qed.
+Print Assumptions C02_ran_only_if_valid.
 
 (* the validity test used as the oracle of the correspondence leg (a bool function evaluated on the
    implementation's cases) decides exactly the validity predicate of the theorems above *)
@@ -165,13 +322,23 @@ Print Assumptions C02_oracle_validity.
    for every write plan and prior state: a case flagged by the oracle is a case where the implementation
    departs from what the theorems above describe *)
 Theorem C02_oracle_accepts_model :
-  forall r s nd ops plan d0 os,
+  forall f r s nd ops plan d0 rp0 os aft,
   valid_scenario r s nd ops ->
-  scenario Z 0%Z src_guards src_empty FList r s nd ops (prog_of plan) d0 = Ran os ->
-  case_violates {| k_form := FList; k_raw := r; k_start := s; k_nd := nd; k_ops := ops; k_d0 := d0;
-                   k_plan := plan; k_obs := IRan os |} = false.
-Proof. apply (oracle_accepts_model src_guards src_empty). vm_compute. reflexivity. Qed.
+  scenario Z 0%Z src_guards src_empty f r s nd ops (prog_of plan) d0 = Ran os ->
+  case_violates {| k_form := f; k_raw := r; k_start := s; k_nd := nd; k_ops := ops; k_d0 := d0;
+                   k_rp0 := rp0; k_plan := plan; k_obs := IRan os; k_after := aft |} = false.
+Proof. apply (oracle_accepts_model src_guards src_empty); vm_compute; reflexivity. Qed.
 Print Assumptions C02_oracle_accepts_model.
+
+(* ... and it accepts an exception raised before any model executed whenever some schedule the caller
+   installed was not valid; with C02_valid_runs / C02_invalid_rejected: the oracle never flags the model *)
+Theorem C02_oracle_accepts_rejection :
+  forall f r s nd ops plan d0 rp0 stage aft,
+  ~ valid_scenario r s nd ops ->
+  case_violates {| k_form := f; k_raw := r; k_start := s; k_nd := nd; k_ops := ops; k_d0 := d0;
+                   k_rp0 := rp0; k_plan := plan; k_obs := IRejected stage 0; k_after := aft |} = false.
+Proof. exact oracle_accepts_rejection. Qed.
+Print Assumptions C02_oracle_accepts_rejection.
 
 (* ------------------------------------------------------------------------------------------------ *)
 (* non-vacuity: concrete inputs meeting the hypotheses, and what the model computes on them           *)
@@ -180,7 +347,6 @@ Example C02_ex_valid_scenario :
   valid_scenario (R1 [TQ (1#2); TQ 1; TQ 4]) (TQ (-1)) true
                  [OSetTimes (R1 [TQ 2; TQ 3; TQ (7#2)]); OSetStart (TQ 1); OSetND false; OSetND true].
 Proof.
-  split; [reflexivity|].
   repeat constructor.
   - exists [1#2; 1; 4], (-1). repeat split; try reflexivity; intros Hc; discriminate Hc.
   - exists [2; 3; 7#2], (-1). repeat split; try reflexivity; intros Hc; discriminate Hc.
@@ -194,11 +360,12 @@ Qed.
 Example C02_ex_trace :
   let junk := {| scene := Some 9; photon := Some 9; charge := Some 9; pixel := Some 9; signal := Some 9;
                  image := Some 9 |}%Z in
-  match model_of src_guards src_empty
+  match model_of src_guards src_empty src_set_readout
           {| k_form := FList; k_raw := R1 [TQ (1#2); TQ 1; TQ 4]; k_start := TQ (-1); k_nd := true;
              k_ops := [OSetTimes (R1 [TQ 2; TQ 3; TQ (7#2)]); OSetStart (TQ 1)]; k_d0 := junk;
+             k_rp0 := Some (mkrp [TQ 7; TQ 8] [TQ 4; TQ 1] 2 (TQ 3) false (TQ 8) (TQ 1) 1);
              k_plan := [[WAdd Pixel 5; WSet Photon 7]; [WAdd Pixel 5; WSet Photon 7]; [WAdd Pixel 5]]%Z;
-             k_obs := IRejected 0 0 |} with
+             k_obs := IRejected 0 0; k_after := None |} with
   | Ran os =>
       map (fun o => (c_count (o_clock o), c_first (o_clock o), c_last (o_clock o), pixel (o_begin o),
                      photon (o_begin o), pixel (o_end o))) os
@@ -207,6 +374,27 @@ Example C02_ex_trace :
   = [(0, true, false, Some 0, None, Some 5); (1, false, false, Some 5, None, Some 10);
      (2, false, true, Some 10, None, Some 15)]%Z.
 Proof. vm_compute. reflexivity. Qed.
+
+(* NaN is refused on every path: as a time or as the start in the constructor, as the start through its
+   setter (stage 1), as a later time through the `times` setter — which has no monotonicity guard — by
+   ReadoutProperties.__init__ (stage 2); never a run *)
+Example C02_ex_nan_rejected :
+  let run r s ops := scenario unit tt src_guards src_empty FList r s false ops (fun _ d => d) (blank unit) in
+  run (R1 [TNaN]) (TQ 0) [] = Rejected 0
+  /\ run (R1 [TQ 1; TNaN; TQ 3]) (TQ 0) [] = Rejected 0
+  /\ run (R1 [TQ 1]) TNaN [] = Rejected 0
+  /\ run (R1 [TQ 1]) (TQ 0) [OSetStart TNaN] = Rejected 1
+  /\ run (R1 [TQ 1]) (TQ 0) [OSetTimes (R1 [TNaN; TQ 2])] = Rejected 1
+  /\ run (R1 [TQ 1]) (TQ 0) [OSetTimes (R1 [TQ 1; TNaN])] = Rejected 2.
+Proof. vm_compute. repeat split. Qed.
+
+(* replace() without `times` and a numpy array given to the constructor run *)
+Example C02_ex_replace_runs :
+  let n f ops := match scenario unit tt src_guards src_empty f (R1 [TQ 1; TQ 2]) (TQ 0) false ops (fun _ d => d)
+                               (blank unit) with Ran os => Some (length os) | Rejected _ => None end in
+  n FList [OReplaceND true] = Some 2%nat /\ n FList [OReplaceStart (TQ (1#2))] = Some 2%nat
+  /\ n FNdarray [] = Some 2%nat /\ n FNdarray [OReplaceStart (TQ (-1)); OSetTimes (R1 [TQ 3])] = Some 1%nat.
+Proof. vm_compute. repeat split. Qed.
 
 (* invalid, NaN-free schedules exist on every path: the `times` setter accepts decreasing times *)
 Example C02_ex_invalid_via_setter :
